@@ -290,6 +290,45 @@ def check_flags(model, rep, sx):
     rep.require('C09.flags', 10)
 
 
+def check_worm_table(model, rep, R='C09.worm-table'):
+    mod = 'gearpy/mechanical_objects/mechanical_object_base.py'
+    # --- worm CSV
+    path = 'gearpy/mechanical_objects/gear_data/worm_gear_and_wheel_data.csv'
+    text = model.data.get(path)
+    if text is None:
+        rep.cannot(R, path, 'file not found')
+    else:
+        rows = list(csv.reader(io.StringIO(text)))
+        hdr, body = rows[0], [r for r in rows[1:] if r]
+        rep.decide(hdr == ['Pressure Angle', 'Maximum Helix Angle', 'Lewis Factor'], R, 'header',
+                   f'header is {hdr}', loc=path)
+        got = {float(r[0]): (float(r[1]), float(r[2])) for r in body}
+        for pa, (mh, y) in WORM.items():
+            rep.decide(pa in got and abs(got[pa][0] - mh) < 1e-12 and abs(got[pa][1] - y) < 1e-12, R,
+                       f'row[{pa:g}]', f'row is {got.get(pa)}, reference ({mh}, {y})', loc=path)
+        extra = sorted(set(got) - set(WORM))
+        rep.decide(not extra, R, 'rows', f'unknown pressure angles {extra}', loc=path)
+    # lookup functions
+    for fname, col, unit in (('worm_wheel_lewis_factor_function', 'Lewis Factor', None),
+                             ('worm_gear_and_wheel_maximum_helix_angle_function', 'Maximum Helix Angle', 'deg')):
+        if fname not in model.functions:
+            rep.cannot(R, fname, 'function not found')
+            continue
+        _, fn = model.functions[fname]
+        s = ast.unparse(fn)
+        ok = (repr(col) in s) and ('Pressure Angle' in s or 'pressure_angle' in s)
+        if unit:
+            ok = ok and (f"unit='{unit}'" in s or f'unit="{unit}"' in s or f"'{unit}')" in s)
+        rep.decide(ok, R, fname, f'lookup does not return column {col!r} by pressure angle'
+                   + (f' in {unit}' if unit else ''), loc=f'{mod}:{fn.lineno}')
+    # 'all four worm pressure angles', in any unit: the table lookups must not key on a converted raw number (C07's rule)
+    from sa.core import Report
+    from checks.c07 import exact_keys
+    dep = Report('C07')
+    exact_keys(model, dep)
+    rep.absorb(dep, {'C07.exact-key': R + '.key'})
+
+
 def check_tables(model, rep):
     mod = 'gearpy/mechanical_objects/mechanical_object_base.py'
     # --- Lewis CSV
@@ -363,41 +402,7 @@ def check_tables(model, rep):
     rep.decide(ok, 'C09.lewis-interp', 'lewis_factor_function', why, loc=f'{mod}:{getattr(call, "lineno", 0)}')
     from checks.c19 import check_minimum_teeth
     check_minimum_teeth(model, rep, R='C09.lewis-interp')
-    # --- worm CSV
-    path = 'gearpy/mechanical_objects/gear_data/worm_gear_and_wheel_data.csv'
-    text = model.data.get(path)
-    if text is None:
-        rep.cannot('C09.worm-table', path, 'file not found')
-    else:
-        rows = list(csv.reader(io.StringIO(text)))
-        hdr, body = rows[0], [r for r in rows[1:] if r]
-        rep.decide(hdr == ['Pressure Angle', 'Maximum Helix Angle', 'Lewis Factor'], 'C09.worm-table', 'header',
-                   f'header is {hdr}', loc=path)
-        got = {float(r[0]): (float(r[1]), float(r[2])) for r in body}
-        for pa, (mh, y) in WORM.items():
-            rep.decide(pa in got and abs(got[pa][0] - mh) < 1e-12 and abs(got[pa][1] - y) < 1e-12, 'C09.worm-table',
-                       f'row[{pa:g}]', f'row is {got.get(pa)}, reference ({mh}, {y})', loc=path)
-        extra = sorted(set(got) - set(WORM))
-        rep.decide(not extra, 'C09.worm-table', 'rows', f'unknown pressure angles {extra}', loc=path)
-    # lookup functions
-    for fname, col, unit in (('worm_wheel_lewis_factor_function', 'Lewis Factor', None),
-                             ('worm_gear_and_wheel_maximum_helix_angle_function', 'Maximum Helix Angle', 'deg')):
-        if fname not in model.functions:
-            rep.cannot('C09.worm-table', fname, 'function not found')
-            continue
-        _, fn = model.functions[fname]
-        s = ast.unparse(fn)
-        ok = (repr(col) in s) and ('Pressure Angle' in s or 'pressure_angle' in s)
-        if unit:
-            ok = ok and (f"unit='{unit}'" in s or f'unit="{unit}"' in s or f"'{unit}')" in s)
-        rep.decide(ok, 'C09.worm-table', fname, f'lookup does not return column {col!r} by pressure angle'
-                   + (f' in {unit}' if unit else ''), loc=f'{mod}:{fn.lineno}')
-    # 'all four worm pressure angles', in any unit: the table lookups must not key on a converted raw number (C07's rule)
-    from sa.core import Report
-    from checks.c07 import exact_keys
-    dep = Report('C07')
-    exact_keys(model, dep)
-    rep.absorb(dep, {'C07.exact-key': 'C09.worm-table.key'})
+    check_worm_table(model, rep)
     rep.require('C09.lewis-table', 38)
     rep.require('C09.worm-table', 6)
 
